@@ -46,6 +46,10 @@ fn birth_lines(sink: &mut Sink, birth: &SolarTime, man: bool) {
   let nj = pj.as_ref().and_then(|t| catch(|| t.next(2)));
   let (pjj, pjs) = pj.as_ref().and_then(term_time).as_ref().map(inst).unwrap_or((-1, -1));
   let (njj, njs) = nj.as_ref().and_then(term_time).as_ref().map(inst).unwrap_or((-1, -1));
+  // the Lichun instant of the birth's civil year and the index of the Jie on or before birth: what the year and month
+  // pillars of the birth instant follow from
+  let (lj, ls) = catch_iso(|| SolarTerm::from_index(birth.get_year(), 3)).as_ref().and_then(term_time).as_ref().map(inst).unwrap_or((-1, -1));
+  let gi = pj.as_ref().map(|t| t.get_index() as i64).unwrap_or(-1);
   let ec = cl.as_ref().map(|c| c.get_eight_char());
   let yp = ec.as_ref().map(|e| e.get_year().get_index() as i64).unwrap_or(-9);
   let mp = ec.as_ref().map(|e| e.get_month().get_index() as i64).unwrap_or(-9);
@@ -75,7 +79,7 @@ fn birth_lines(sink: &mut Sink, birth: &SolarTime, man: bool) {
       }
     }
   }
-  sink.put(Ev::new("cl").i("s", 0).a("b", &fields(birth)).i("bj", bj).i("bs", bs).b("man", man).b("ok", cl.is_some()).i("yp", yp).i("mp", mp).i("hp", hp).i("fwd", fwd)
+  sink.put(Ev::new("cl").i("s", 0).a("b", &fields(birth)).i("bj", bj).i("bs", bs).b("man", man).b("ok", cl.is_some()).i("yp", yp).i("mp", mp).i("hp", hp).i("fwd", fwd).i("lj", lj).i("ls", ls).i("gi", gi)
     .i("pjj", pjj).i("pjs", pjs).i("njj", njj).i("njs", njs).a("c", &c).i("ej", ej).i("es", es).i("ey", ey).a("st", &[st.0, st.1]).a("ages", &ages).a("dec", &dec).a("fo", &fo).done());
   // the other strategies, on the governing Jie the direction selects
   if let (Some(c), Some(pj), Some(nj)) = (cl.as_ref(), pj.as_ref(), nj.as_ref()) {
@@ -112,6 +116,14 @@ pub fn run(ctx: &Ctx) -> usize {
         }
       }
       2 => (rng.range(2295000, 2299400), rng.range(0, 86399)), // 1571..1583: limits that end around October 1582
+      3 => {
+        // within a few days of the Lichun instant of any year (in January under the Julian calendar): where the year turns
+        let y = rng.range(2, 9986);
+        match catch(|| SolarTerm::from_index(y as isize, 3)).and_then(|t| term_time(&t)).and_then(|t| catch(|| t.next(rng.range(-6 * 86400, 6 * 86400) as isize))) {
+          Some(t) => inst(&t),
+          None => continue,
+        }
+      }
       _ => (crate::windows::sample_day(&mut rng, 1721424 + 500, 5369000), rng.range(0, 86399)),
     };
     if k % 6 == 0 {
